@@ -52,7 +52,7 @@ def cases(tier, seed):
     while True:
         # every second project is generated with a distinct spelling per binding: none of the
         # spelling-clash classes applies there, so those requests are judged with fine keys
-        yield {"seed": f"{seed}/C01/{i}", "pseed": seed * 1000003 + i, "unique": i % 2}
+        yield {"seed": f"{seed}/C01/{i}", "pseed": seed * 1000003 + i, "unique": i % 3}
         i += 1
 
 
@@ -103,6 +103,7 @@ def project_facts(files):
     class_members, base_names = {}, set()
     ambiguous_members = set()
     bare_genexp_targets = set()
+    class_nested_scope_loads = set()
     for path in files:
         if path.endswith(".py") and not path.endswith("__init__.py"):
             leafs.setdefault(path.split("/")[-1], []).append(path)
@@ -167,6 +168,14 @@ def project_facts(files):
                             mem.add(t.id)
                 for st in n.body:
                     if not isinstance(st, (ast.FunctionDef, ast.AsyncFunctionDef, ast.ClassDef)):
+                        # names read in a lambda / comprehension nested directly in the class body (their scope
+                        # skips the class namespace)
+                        for sub in ast.walk(st):
+                            if isinstance(sub, (ast.Lambda, ast.ListComp, ast.SetComp, ast.DictComp, ast.GeneratorExp)):
+                                class_nested_scope_loads.update(t.id for t in ast.walk(sub)
+                                                                if isinstance(t, ast.Name) and isinstance(t.ctx, ast.Load))
+                for st in n.body:
+                    if not isinstance(st, (ast.FunctionDef, ast.AsyncFunctionDef, ast.ClassDef)):
                         class_body_loads |= {t.id for t in ast.walk(st) if isinstance(t, ast.Name) and isinstance(t.ctx, ast.Load)}
                         class_body_loads |= {kw.arg for t in ast.walk(st) if isinstance(t, ast.Call) for kw in t.keywords if kw.arg}
                     else:
@@ -219,7 +228,8 @@ def project_facts(files):
             "nonproject_imports": nonproject_imports, "star": star, "class_body_loads": class_body_loads,
             "init_params": init_params, "same_leaf": same_leaf, "has_prefixed_string": has_prefixed_string,
             "inherited_members": {m for c, ms in class_members.items() if c in base_names for m in ms},
-            "ambiguous_members": ambiguous_members, "bare_genexp_targets": bare_genexp_targets}
+            "ambiguous_members": ambiguous_members, "bare_genexp_targets": bare_genexp_targets,
+            "class_nested_scope_loads": class_nested_scope_loads}
 
 
 def stream(text):
@@ -365,6 +375,8 @@ def run_case(spec):
                     label = "import-alias"
                 elif tok and old in facts["bare_genexp_targets"]:
                     label = "variable-of-a-generator-expression-that-is-the-sole-unparenthesised-argument-of-a-call"
+                elif tok and old in facts["class_nested_scope_loads"]:
+                    label = "name-read-in-a-lambda-or-comprehension-directly-in-a-class-body"
             elif tok and hasattr(builtins, old):
                 label = "builtin-name"
             elif tok and old.startswith("__") and old.endswith("__"):
